@@ -303,6 +303,14 @@ def pattern_cases():
                 ops.append(["tx", second, 1])
             ops += [["block", 1, 0, [second], 1], ["unconf"], ["delaycheck"], ["tx", first, 0], ["block", 2, 1, [4], 1]]
             res.append((U, ops))
+    # the stored copy after a confirmation whose merkle proof duplicates a hash (the tx is the last of 3 / 5 / 7 / 6 txs of
+    # its block), with a clean restart in between: fetched back, the stored proof must still verify
+    D = Universe()
+    for t in range(1, 9):
+        D.add(t, [1000 + 10 * t], t in (1, 8))
+    for blk in ([2, 3, 1], [2, 3, 4, 5, 1], [2, 3, 4, 5, 6, 7, 1], [2, 3, 4, 5, 6, 1], [2, 3, 4, 1], [1]):
+        res.append((D, [["setinsync", 1], ["tx", 1, 0], ["restart"], ["setinsync", 1], ["block", 1, 0, blk, 1], ["gettx", 1],
+                        ["tx", 8, 0], ["block", 2, 1, [8], 1], ["gettx", 1], ["gettx", 8], ["restart"], ["gettx", 1], ["unconf"]]))
     # chained spends of a stored (relevant, delivered) parent with MORE outputs than the spending tx (tx 3 has five): the
     # spent output of index 3 / 4 must be the parent's, index 5 is out of range; from a peer, first seen in a block, and
     # for a parent that was itself first seen in the same block
